@@ -768,6 +768,29 @@ func runC12(c *runCtx) error {
 		}
 	}
 
+	// part A3: arithmetic whose value depends on HOW it is grouped (integers above 2^53 mixed with
+	// floats: exact integer addition first, then one rounding): the written / removed key and the
+	// value are the EVALUATED expressions as written, not a re-associated form of them
+	{
+		bigK := c12Const("9007199254740993 + 2 + 0.0", "number", fmt.Sprintf("%f", float64(int64(9007199254740993)+2)+0.0))
+		bigK2 := c12Const("9007199254740993 + 1 + 1.0", "number", fmt.Sprintf("%f", float64(int64(9007199254740993)+1)+1.0))
+		bigV := c12Expr{text: "strlen(key) + 9007199254740993 + 0.5", kind: "keyref", want: func(k string) string {
+			return fmt.Sprintf("%f", float64(int64(len(k))+9007199254740993)+0.5)
+		}}
+		mulV := c12Const("3 * 3002399751580331 * 0.5", "number", fmt.Sprintf("%f", float64(int64(3)*3002399751580331)*0.5))
+		prior := [][2]string{{bigK.want(""), "old"}, {"9007199254740994.000000", "other"}, {"a", "x"}}
+		for _, st := range []c12Stmt{
+			{keys: []c12Expr{c12KeyPool[0]}, vals: []c12Expr{bigK}},
+			{keys: []c12Expr{c12KeyPool[0], c12KeyPool[1]}, vals: []c12Expr{bigV, mulV}},
+			{keys: []c12Expr{bigK}, vals: []c12Expr{c12ValPool[1]}},
+			{keys: []c12Expr{bigK2, c12KeyPool[0]}, vals: []c12Expr{c12ValPool[2], bigV}},
+			{remove: true, keys: []c12Expr{bigK}},
+			{remove: true, keys: []c12Expr{c12KeyPool[0], bigK2}},
+		} {
+			c12Run(e, st, newStore(prior), nextPolls(), 0, 0, []string{bigK.want(""), "9007199254740994.000000", "a"})
+		}
+	}
+
 	// part B: every polling pattern x representative statements
 	K, V := c12KeyPool, c12ValPool
 	reps := []c12Stmt{
